@@ -127,6 +127,14 @@ def _perform(self, t, act, endo):
             else:
                 d['_' + nm][t] = d['_' + nm][t] + fval(act['d'][j])
         return
+    if kind == 'npunder':
+        # a harmless underflow: finite result, and NumPy's default error state does not even warn about it
+        for j, nm in enumerate(endo):
+            if j == act['j']:
+                d['_' + nm][t] = np.float64(1e-200) * np.float64(1e-200) + fval(act['v'])
+            else:
+                d['_' + nm][t] = d['_' + nm][t] + fval(act['d'][j])
+        return
     if kind == 'delta':
         for j, nm in enumerate(endo):
             d['_' + nm][t] = d['_' + nm][t] + fval(act['d'][j])
